@@ -338,9 +338,7 @@ theorem np_unlink (p : FUid) : NP (Leafish1 f par act) (Leafish f par act)
 theorem abortFlow_leaf_no_py (fuel : Nat) (sc : List Score) :
     NP (Leafish1 f par act) (Leafish f par act) (abortFlow (fuel + 1) f sc false) := by
   unfold CoreVM.abortFlow
-  simp only [Bool.false_and, Bool.false_eq_true, if_false]
-  refine NP.bind (NP.lift1 np_isReferenceActivated (KL1.of_fx_same (KL.of_same (Same.isReferenceActivated f))
-    (fx_same_of_same (Same.isReferenceActivated f)))) (fun b => ?_)
+  simp only [deactivatesRef_false, pure_bind, Bool.false_and, Bool.false_eq_true, if_false]
   refine NP.read_inst (fun _ h => h.1) _ (fun i => ?_)
   split
   · exact NP.post (NP.pure _) (fun s h => h.1)
